@@ -116,7 +116,7 @@ def gen_c19(rng, tier):
             ks, kw = "%s%d" % (mode, bits), "w" + mode
             case = [gen_img.img_line(rng, buf), "from_bytes " + kw, "from_bytes " + ks, "from_bytes %s%d" % (mode, 96 - bits)]
             ops = ["hdrw %s", "jsonsub %s", "json %s", "relocs %s dump"]
-            rvas = [0, 1, 0x1000, 0x1004, 0x2000, rng.randrange(0, 0x4000)] + ([s.va + rng.randrange(0, max(s.rs, 1)) for s in pe.sections] if pe else [rng.randrange(0, max(len(buf), 1)) for _ in range(4)])
+            rvas = [0, 1, 0x1000, 0x1004, 0x2000, rng.randrange(0, 0x4000)] + ([(s.va + rng.randrange(0, max(s.rs, 1))) & 0xFFFFFFFF for s in pe.sections] if pe else [rng.randrange(0, max(len(buf), 1)) for _ in range(4)])
             for r in rvas:
                 ops += ["slice %%s 0x%x %d %d" % (r, rng.choice([0, 1, 8]), rng.choice([1, 2, 4])), "derva_copy %%s u32 0x%x" % r, "derva_cstr %%s 0x%x" % r,
                         "derva %%s u16 0x%x" % r, "derva_slice_s %%s u16 0x%x 0" % r, "derva_into %%s 5 0x%x" % r, "derva_slice %%s u32 0x%x 3" % r, "byrva %%s 0x%x" % r]
